@@ -215,8 +215,13 @@ func normalizeConstraints[V univers.Version[V], VR univers.VersionRange[V]](
 			return 1
 		}
 
-		// For regular constraints, sort by version
-		return a.version.Compare(b.version)
+		// For regular constraints, sort by version; constraints on equal versions are
+		// ordered so that the interval walk meets the more restrictive one last (lower
+		// bounds) or first (upper bounds)
+		if cmp := a.version.Compare(b.version); cmp != 0 {
+			return cmp
+		}
+		return operatorRank(a.constraint) - operatorRank(b.constraint)
 	})
 
 	// Extract the sorted constraint strings
@@ -226,6 +231,25 @@ func normalizeConstraints[V univers.Version[V], VR univers.VersionRange[V]](
 	}
 
 	return sorted, nil
+}
+
+// operatorRank orders the comparators of constraints that carry the same version
+func operatorRank(constraint string) int {
+	switch {
+	case strings.HasPrefix(constraint, ">="):
+		return 0
+	case strings.HasPrefix(constraint, ">"):
+		return 1
+	case strings.HasPrefix(constraint, "="):
+		return 2
+	case strings.HasPrefix(constraint, "!="):
+		return 3
+	case strings.HasPrefix(constraint, "<="):
+		return 5
+	case strings.HasPrefix(constraint, "<"):
+		return 4
+	}
+	return 6
 }
 
 // contains implements VERS constraint checking for a given ecosystem.
@@ -408,158 +432,71 @@ func parseConstraint(constraintStr string) (constraint, error) {
 	return constraint{}, fmt.Errorf("no valid operator found in constraint")
 }
 
-// groupConstraintsIntoIntervals groups VERS constraints into intervals according to the specification
+// groupConstraintsIntoIntervals groups VERS constraints into intervals according to the specification.
+// The constraints arrive sorted by version. "=" constraints are single points and "!="
+// constraints are handled by the caller. The remaining comparators are walked in order,
+// as the VERS specification describes: a leading "<" / "<=" is an interval without lower
+// bound, every ">" / ">=" opens an interval that the next "<" / "<=" closes, and a
+// trailing ">" / ">=" is an interval without upper bound:
+//
+//	<1.0|>=2.0|<3.0   is  (-inf,1.0) or [2.0,3.0)
+//	>=1.0|<2.0|>=3.0  is  [1.0,2.0) or [3.0,+inf)
+//
+// Redundant bounds keep the most restrictive one: of several lower bounds in a row the
+// last (highest) opens the interval, of several upper bounds in a row the first (lowest)
+// closes it.
 func groupConstraintsIntoIntervals(constraints []constraint) ([]interval, error) {
 	var intervals []interval
-	var lowerBounds []constraint
-	var upperBounds []constraint
-	var exactMatches []constraint
-	var excludes []constraint
 
-	// Separate constraints by type
+	// Exact matches create individual intervals
 	for _, constraint := range constraints {
-		switch constraint.operator {
-		case "=":
-			exactMatches = append(exactMatches, constraint)
-		case "!=":
-			excludes = append(excludes, constraint)
-		case ">=", ">":
-			lowerBounds = append(lowerBounds, constraint)
-		case "<=", "<":
-			upperBounds = append(upperBounds, constraint)
+		if constraint.operator == "=" {
+			intervals = append(intervals, interval{
+				exact: constraint.version,
+			})
 		}
-	}
-
-	// Handle exact matches first - they create individual intervals
-	for _, exact := range exactMatches {
-		intervals = append(intervals, interval{
-			exact: exact.version,
-		})
 	}
 
 	// Excludes are handled separately in the contains function, not as intervals
 
-	// Handle range constraints (lower/upper bounds)
-	if len(lowerBounds) > 0 || len(upperBounds) > 0 {
-		// For VERS spec compliance, we need to analyze the constraint pattern:
-		// 1. If there are multiple bounds of the same type, take the most restrictive
-		// 2. If there's a mix creating logical intervals, pair them appropriately
-
-		// Determine if we should merge constraints (most restrictive) or create multiple intervals
-		shouldMerge := shouldMergeConstraints(lowerBounds, upperBounds)
-
-		if shouldMerge {
-			// Merge constraints: use most restrictive bounds
-			var mostRestrictiveLower *constraint
-			var mostRestrictiveUpper *constraint
-
-			// Find most restrictive lower bound (highest version)
-			// Since constraints are already sorted by version, take the last lower bound
-			if len(lowerBounds) > 0 {
-				mostRestrictiveLower = &lowerBounds[len(lowerBounds)-1]
-			}
-
-			// Find most restrictive upper bound (lowest version)
-			// Since constraints are already sorted by version, take the first upper bound
-			if len(upperBounds) > 0 {
-				mostRestrictiveUpper = &upperBounds[0]
-			}
-
-			// Create single interval from most restrictive bounds
-			if mostRestrictiveLower != nil && mostRestrictiveUpper != nil {
+	var pendingLower *constraint // lower bound waiting for its upper bound
+	sawBound := false            // whether any lower or upper bound was seen so far
+	for i := range constraints {
+		c := &constraints[i]
+		switch c.operator {
+		case ">=", ">":
+			pendingLower = c
+			sawBound = true
+		case "<=", "<":
+			switch {
+			case pendingLower != nil:
 				intervals = append(intervals, interval{
-					lower:          mostRestrictiveLower.version,
-					lowerInclusive: mostRestrictiveLower.operator == ">=",
-					upper:          mostRestrictiveUpper.version,
-					upperInclusive: mostRestrictiveUpper.operator == "<=",
+					lower:          pendingLower.version,
+					lowerInclusive: pendingLower.operator == ">=",
+					upper:          c.version,
+					upperInclusive: c.operator == "<=",
 				})
-			} else if mostRestrictiveLower != nil {
+				pendingLower = nil
+			case !sawBound:
+				// leading upper bound
 				intervals = append(intervals, interval{
-					lower:          mostRestrictiveLower.version,
-					lowerInclusive: mostRestrictiveLower.operator == ">=",
-				})
-			} else if mostRestrictiveUpper != nil {
-				intervals = append(intervals, interval{
-					upper:          mostRestrictiveUpper.version,
-					upperInclusive: mostRestrictiveUpper.operator == "<=",
+					upper:          c.version,
+					upperInclusive: c.operator == "<=",
 				})
 			}
-		} else {
-			// Handle non-merge cases: either pairing or individual intervals
-
-			// If equal counts, pair them to create intervals (e.g., alternating pattern)
-			if len(lowerBounds) == len(upperBounds) && len(lowerBounds) > 1 {
-				// Pair constraints to create intervals
-				for i := 0; i < len(lowerBounds); i++ {
-					intervals = append(intervals, interval{
-						lower:          lowerBounds[i].version,
-						lowerInclusive: lowerBounds[i].operator == ">=",
-						upper:          upperBounds[i].version,
-						upperInclusive: upperBounds[i].operator == "<=",
-					})
-				}
-			} else {
-				// Create individual intervals for each constraint
-				// This allows each constraint to be satisfied independently
-
-				// Create interval for each lower bound
-				for _, lower := range lowerBounds {
-					intervals = append(intervals, interval{
-						lower:          lower.version,
-						lowerInclusive: lower.operator == ">=",
-					})
-				}
-
-				// Create interval for each upper bound
-				for _, upper := range upperBounds {
-					intervals = append(intervals, interval{
-						upper:          upper.version,
-						upperInclusive: upper.operator == "<=",
-					})
-				}
-			}
+			// an upper bound directly after another upper bound is redundant
+			sawBound = true
 		}
+	}
+	if pendingLower != nil {
+		// trailing lower bound
+		intervals = append(intervals, interval{
+			lower:          pendingLower.version,
+			lowerInclusive: pendingLower.operator == ">=",
+		})
 	}
 
 	return intervals, nil
-}
-
-// shouldMergeConstraints determines whether constraints should be merged (most restrictive)
-// or create multiple intervals based on the constraint pattern
-func shouldMergeConstraints(lowerBounds, upperBounds []constraint) bool {
-	// Based on analysis of failing/passing tests:
-	//
-	// PASSING tests that expect merging (should return true here):
-	// - "multiple_lower_bounds_-_should_take_most_restrictive": 2 lower + 1 upper -> merge
-	// - "multiple_upper_bounds_-_should_take_most_restrictive": 1 lower + 2 upper -> merge
-	//
-	// FAILING tests that expect individual intervals (should return false here):
-	// - "maven_unordered_constraints_-_outside_range": 2 lower + 1 upper -> individual intervals
-	//
-	// This creates a contradiction! Same pattern (2 lower + 1 upper) expects different behavior.
-	// The only difference might be the specific constraint values or test expectations.
-
-	// Let me try a different approach: merge only when counts are equal (suggesting pairing)
-	// or when there's exactly one of each bound
-
-	// Case 1: Exactly one lower and one upper -> clearly should merge
-	if len(lowerBounds) == 1 && len(upperBounds) == 1 {
-		return true
-	}
-
-	// Case 2: Multiple bounds of same type -> should merge to most restrictive
-	// This handles the "should_take_most_restrictive" test cases
-	if (len(lowerBounds) > 1 && len(upperBounds) == 1) || (len(lowerBounds) == 1 && len(upperBounds) > 1) {
-		return true
-	}
-
-	// Case 3: Equal counts suggest pairing intent -> pair them
-	if len(lowerBounds) == len(upperBounds) && len(lowerBounds) > 1 {
-		return false // Pair them, which happens in the non-merge logic
-	}
-
-	// Case 4: Multiple bounds of both types with unequal counts -> individual intervals
-	return false
 }
 
 // Contains checks if a version satisfies a VERS range using the stateless API.
